@@ -489,24 +489,26 @@ def ode_runs(res, tier):
             sim.dt = sgn * 0.013
             sim.ri_bs.eps_rel = 1e-10
             sim.ri_bs.eps_abs = 1e-10
-            ode = sim.create_ode(length=2, needs_nbody=False)
+            ode = sim.create_ode(length=3, needs_nbody=False)
 
             def deriv(ode_p, yDot, y, t):
                 yDot[0] = y[1]
                 yDot[1] = -y[0]
+                yDot[2] = math.cos(1.3 * t)           # explicit time dependence: the callback's clock is the ODE's own time
             ode.derivatives = deriv
-            ode.y[0], ode.y[1] = 1.0, 0.0
+            ode.y[0], ode.y[1], ode.y[2] = 1.0, 0.0, 0.0
             T = sgn * 9.7
             try:
                 sim.integrate(T)
             except Exception as e:  # noqa: BLE001
                 viol(res, "ode-run-failed", integrator=name, error=str(e)[:100])
                 continue
-            err = max(abs(ode.y[0] - math.cos(sim.t)), abs(ode.y[1] + math.sin(sim.t)))
+            err = max(abs(ode.y[0] - math.cos(sim.t)), abs(ode.y[1] + math.sin(sim.t)), abs(ode.y[2] - math.sin(1.3 * sim.t) / 1.3))
             res["ode_runs"] += 1
             res["observed"]["ode %s dir%+d" % (name, sgn)] = err
             if not err <= 1e-7:
-                viol(res, "ode-coupling", integrator=name, direction=sgn, error=err, t=sim.t)
+                viol(res, "ode-coupling", integrator=name, direction=sgn, error=err, t=sim.t,
+                     components=[ode.y[0] - math.cos(sim.t), ode.y[1] + math.sin(sim.t), ode.y[2] - math.sin(1.3 * sim.t) / 1.3])
 
 
 def state_of(sim):
